@@ -65,7 +65,7 @@ def cone_files(target_v):
 def coq_build(prop_files, clean=False):
     """Regenerate, then make the given props/*.vo targets.  Returns a status dict."""
     t0 = time.time()
-    with Lock():
+    if True:
         gen = regenerate()
         st = {"gen": gen, "ok": True, "errors": [], "assumptions": {}, "theorems": [], "files": []}
         for name, g in gen.items():
@@ -125,10 +125,21 @@ def coq_build(prop_files, clean=False):
 
 
 def build_model():
-    with Lock():
-        rc, out = sh([os.path.join(VERIF, "ocaml", "build.sh")], timeout=3000)
-    ok = rc == 0 and os.path.exists(BIN)
+    """build bin/mutagen_model and take a private copy for this run (call under Lock)"""
+    global BIN
+    shared = os.path.join(VERIF, "bin", "mutagen_model")
+    rc, out = sh([os.path.join(VERIF, "ocaml", "build.sh")], timeout=3000)
+    ok = rc == 0 and os.path.exists(shared)
+    if ok:
+        d = os.path.join(VERIF, ".run", "bin_%d" % os.getpid())
+        os.makedirs(d, exist_ok=True)
+        BIN = os.path.join(d, "mutagen_model")
+        shutil.copy2(shared, BIN)
     return ok, out[-2000:]
+
+
+def cleanup_run():
+    shutil.rmtree(os.path.join(VERIF, ".run", "bin_%d" % os.getpid()), ignore_errors=True)
 
 
 class Model:
